@@ -2,27 +2,25 @@ package main
 
 import (
 	"fmt"
-	"strings"
 
 	"verifharness/chain"
 	"verifharness/run"
 	_ "verifharness/scen"
 )
 
-type probe struct{}
-
-func (probe) AfterCommit(w *chain.World, blk *chain.BlockRecord) {
-	for _, t := range blk.Txs {
-		mt := t.MsgType()
-		if (strings.Contains(mt, "CreateAssetInfo") || strings.Contains(mt, "AddEntry") || strings.Contains(mt, "Uncommit") && blk.Height>100 || strings.Contains(mt, "MsgBond") && len(t.Fee) > 0) && !t.OK() {
-			fmt.Printf("h=%d %s failed: %.300s\n", blk.Height, mt, strings.SplitN(t.Result.Log, "\n", 2)[0])
-		}
-	}
-}
-
 func main() {
-	j := run.Job{Prop: "C18", Scenario: "faults", Index: 8, Seed: 1, Tier: "quick"}
-	run.AttachHook = func(w *chain.World) { w.AddProbe(probe{}) }
+	j := run.Job{Prop: "C09", Scenario: "mix", Index: 4, Seed: 1, Tier: "quick"}
+	var W *chain.World
+	run.AttachHook = func(w *chain.World) { W = w }
 	r := run.RunJob(j)
-	fmt.Println(r.NViolations)
+	ctx := W.ReadCtx()
+	n := map[uint64]int{}
+	for _, m := range W.App.PerpetualKeeper.GetAllMTPs(ctx) {
+		n[m.AmmPoolId]++
+	}
+	l := map[uint64]int{}
+	for _, p := range W.App.LeveragelpKeeper.GetAllPositions(ctx) {
+		l[p.AmmPoolId]++
+	}
+	fmt.Println("mtps per pool", n, "lev positions per pool", l, "market pool", W.ElysMarketPool, r.NViolations)
 }
